@@ -46,7 +46,8 @@ func init() {
 		"via:cli", "cli:chunk-server", "cli:index-server",
 		"cli:auth:flag", "cli:auth:env", "cli:auth:both", "cli:auth:none",
 		"cli:writable", "cli:readonly", "cli:verify-write-on", "cli:verify-write-off", "cli:compressed", "cli:uncompressed",
-		"cli:cfg:flag", "cli:cfg:home", "cli:flags:long", "cli:flags:short",
+		"cli:cfg:flag", "cli:cfg:home", "cli:flags:long", "cli:flags:short", "cli:digest:sha256", "cli:digest:sha512-256",
+		"cli:digest:sha256:uncompressed:verify-write", "cli:digest:sha256:put:named-by-other-digest:refused",
 		"cli:refused-without-right-value:flag", "cli:refused-without-right-value:env", "cli:refused-without-right-value:both",
 		"cli:out:auth-refused", "cli:out:get-200", "cli:out:put-stored", "cli:out:readonly-put-refused",
 		"cli:out:bad-upload-refused", "cli:out:unverified-upload-stored", "cli:out:bad-path-refused", "cli:out:unreached",
@@ -93,6 +94,10 @@ func genCLICase(t *rapid.T) Case {
 			cl.CfgVia = rapid.SampledFrom([]string{"", "flag", "home"}).Draw(t, "cfgvia")
 		}
 	}
+	if c.Server == "chunk" && rapid.IntRange(0, 2).Draw(t, "digest") == 2 {
+		c.Digest = "sha256"
+	}
+	defer setDigest(c.Digest)() // chunk IDs in the generated paths are those of the configured digest
 	cl.AuthVia = rapid.SampledFrom([]string{"env", "flag", "both", "none", "env"}).Draw(t, "authvia")
 	if cl.AuthVia != "none" {
 		c.Auth = rapid.SampledFrom(authValues).Draw(t, "auth")
@@ -151,10 +156,16 @@ func cliLaunchFor(c Case, w *world) cliLaunch {
 		}
 		mustWrite("/", p, cfg)
 	}
+	if c.Digest == "sha256" && !cl.Long { // a flag of the root command: before or after the sub-command
+		l.Args = append(l.Args, "--digest", "sha256")
+	}
 	if c.Server == "index" {
 		l.Args = append(l.Args, "index-server")
 	} else {
 		l.Args = append(l.Args, "chunk-server")
+	}
+	if c.Digest == "sha256" && cl.Long {
+		l.Args = append(l.Args, "--digest=sha256")
 	}
 	l.Args = append(l.Args, pick("-s", "--store"), served)
 	if c.Writable {
@@ -293,6 +304,9 @@ func runCLI(c Case) (o hx.Outcome) {
 		mark := len(o.Classes)
 		obs, vi := judge(&o, c, i, r, body, hasBody, resp, s, nil, before, after)
 		for _, cls := range o.Classes[mark:] {
+			if strings.HasPrefix(cls, "digest:") {
+				o.Class("cli:" + cls)
+			}
 			if strings.HasPrefix(cls, "out:") {
 				o.Class("cli:" + cls)
 				if cls == "out:auth-refused" {
@@ -350,6 +364,10 @@ func runCLI(c Case) (o hx.Outcome) {
 		flag(c.Compressed, "cli:compressed", "cli:uncompressed")
 		flag(c.StoreUncompressed, "cli:store-uncompressed", "cli:store-compressed")
 		flag(c.StoreSkipVerify, "cli:verify-read-off", "cli:verify-read-on")
+		o.Class("cli:digest:" + digestName(c.Digest))
+		if c.Writable && !c.SkipVerifyWrite {
+			o.Class("cli:digest:" + digestName(c.Digest) + ":" + map[bool]string{true: "compressed", false: "uncompressed"}[c.Compressed] + ":verify-write")
+		}
 		o.Class("cli:cfg:" + map[string]string{"": "none", "flag": "flag", "home": "home"}[cl.CfgVia])
 	}
 	if refused {
@@ -391,6 +409,9 @@ func cliConfigs() []Case {
 				for _, comp := range []bool{false, true} {
 					c := mk("chunk")
 					c.SkipVerifyWrite, c.Compressed, c.StoreUncompressed = sv, comp, !comp
+					if (n%3 == 0) != (!sv && !comp && w) { // a third of them, and in any case not all verifying uncompressed writable ones
+						c.Digest = "sha256"
+					}
 					c.StoreSkipVerify = n%4 != 0
 					if c.StoreUncompressed {
 						c.CLI.CfgVia = []string{"flag", "home"}[n%2]
@@ -418,6 +439,8 @@ func TestEnumCLI(t *testing.T) {
 		if ci%hx.Shards() != hx.Shard() {
 			continue
 		}
+		restore := setDigest(c.Digest)
+		defer restore()
 		u := chunkUniverse(c.Seed)
 		paths := func(target string) []pv {
 			if c.Server == "index" {
@@ -455,6 +478,10 @@ func TestEnumCLI(t *testing.T) {
 				r.BodyObj = "P"
 			}
 			c.Reqs = append(c.Reqs, r)
+		}
+		if c.Server == "chunk" {
+			c.Reqs = append(c.Reqs, Req{Method: "PUT", Path: paths("X")[0].Path, PClass: "well", Target: "X", Auth: right, HClass: rc, Body: "valid"},
+				Req{Method: "GET", Path: paths("X")[0].Path, PClass: "well", Target: "X", Auth: right, HClass: rc, Body: "none"})
 		}
 		nreq += len(c.Reqs)
 		nsrv++
